@@ -84,6 +84,20 @@ const char* point_name(int p)
 
 std::string pick_position(Tape& t, Report& rep)
 {
+    // many hanging queens: a single quiescence search runs for 10^5..10^6 node visits, so a stop flag that is only
+    // polled by the full-width search would not be seen for a long time
+    if (t.chance(1, 5))
+    {
+        rep.cls("c06:explosive_position");
+        if (t.flag())
+            for (int i = 0; i < 6; ++i)
+            {
+                ref::Pos p = gen::gen_fen(t, &rep, 4);
+                int queens = ref::count(p, 'Q') + ref::count(p, 'q');
+                if (queens >= 8 && ref::legal_moves(p).size() >= 2) return ref::to_fen(p);
+            }
+        return "k7/8/1r1q1r1q/b1q1n1q1/1Q1N1Q1B/Q1R1Q1R1/8/7K w - - 0 1";
+    }
     for (int i = 0; i < 4; ++i)
     {
         gen::Root r = gen::gen_root(t, &rep, 40);
